@@ -209,6 +209,60 @@ func subCodec(out string, seed uint64, tier string, arg string) {
 			}
 		}
 	}
+	// ---- listing of a registry in which two kinds share a name (names are only unique within a kind): every
+	// registered lint still gets its own line — the multiset of (name, description, citation, source) is preserved
+	{
+		reg := lint.NewRegistry()
+		type row struct{ n, d, c, s string }
+		var want []string
+		add := func(kind string, r row) {
+			md := lint.LintMetadata{Name: r.n, Description: r.d, Citation: r.c, Source: lint.LintSource(r.s)}
+			var err error
+			switch kind {
+			case "cert":
+				err = lint.VerifRegisterCertificateLint(reg, &lint.CertificateLint{LintMetadata: md, Lint: func() lint.CertificateLintInterface { return nopCert{} }})
+			case "crl":
+				err = lint.VerifRegisterRevocationListLint(reg, &lint.RevocationListLint{LintMetadata: md, Lint: func() lint.RevocationListLintInterface { return nopCRL{} }})
+			case "ocsp":
+				err = lint.VerifRegisterOcspResponseLint(reg, &lint.OcspResponseLint{LintMetadata: md, Lint: func() lint.OcspResponseLintInterface { return nopOCSP{} }})
+			}
+			if err == nil {
+				want = append(want, fmt.Sprintf("%s|%s|%s|%s", r.n, r.d, r.c, r.s))
+			}
+		}
+		add("cert", row{"e_shared_name", "the certificate lint", "cite-cert", "RFC5280"})
+		add("crl", row{"e_shared_name", "the CRL lint", "cite-crl", "CABF_BR"})
+		add("ocsp", row{"e_shared_name", "the OCSP lint", "cite-ocsp", "RFC6960"})
+		add("cert", row{"w_only_cert", "c", "x", "Community"})
+		add("crl", row{"e_only_crl", "r", "y", "RFC5280"})
+		add("ocsp", row{"n_only_ocsp", "o", "z", "RFC6960"})
+		var buf bytes.Buffer
+		reg.WriteJSON(&buf)
+		var got []string
+		for _, ln := range strings.Split(strings.TrimRight(buf.String(), "\n"), "\n") {
+			var m struct {
+				Name        string `json:"name"`
+				Description string `json:"description"`
+				Citation    string `json:"citation"`
+				Source      string `json:"source"`
+			}
+			if ln == "" {
+				continue
+			}
+			if err := json.Unmarshal([]byte(ln), &m); err != nil {
+				got = append(got, "undecodable:"+ln)
+				continue
+			}
+			got = append(got, fmt.Sprintf("%s|%s|%s|%s", m.Name, m.Description, m.Citation, m.Source))
+		}
+		sort.Strings(want)
+		sort.Strings(got)
+		rep.Evaluations++
+		rep.distinctKey("listing-shared-name")
+		if strings.Join(want, "\n") != strings.Join(got, "\n") {
+			rep.violate(Violation{"C14", fmt.Sprintf("the listing of a registry whose kinds share a lint name is not one line per registered lint: registered %q, listed %q", want, got), "listing-shared-name", map[string]interface{}{"registered": want, "listed": got}})
+		}
+	}
 	// ---- listing
 	for _, reg := range listingRegistries(g) {
 		var buf bytes.Buffer
